@@ -55,7 +55,7 @@
       the directive's argument cannot be coerced, the selection is left out with an error).  Such
       requests get [PUnevaluable r]: the executor model's answer, compared by the check, with no
       theorem about it ([request_evaluable] is the hypothesis of [C03_pipeline_total]).
-    - Outside the composition: the cost rule (C14), Subscribe and asynchronous
+    - Outside the composition: Subscribe and asynchronous
       resolvers (C02), the serialiser itself (encoding/json; [json_finite] is the condition under
       which it accepts a number), stack depth of the Go runtime.  For these the glue theorems of
       round 1 (…_partial below) and the hostile stream remain the evidence. *)
@@ -63,7 +63,7 @@ From Coq Require Import List NArith.
 From ApiFu Require Import Base.Sexp.
 From ApiFu Require Syn.Ast Syn.ParserModel Syn.FrontEnd Vld.Ast Vld.ValidatorModel Vld.ProofsCommon Val.Values ExeA.ArgData ExeA.ArgArgs ExeA.ArgModel ExeA.ArgSpec ExeA.ArgHyps.
 From ApiFu Require Vld.MemoEquiv.
-From ApiFu Require Import Pipe.PipelineModel Pipe.PipelineProofs Pipe.Convert Pipe.Compose Pipe.SchemaAgree Pipe.PositionsProofs Pipe.FieldPositions Pipe.ComposeProofs Pipe.CondsProofs Pipe.TypingProofs.
+From ApiFu Require Import Pipe.PipelineModel Pipe.PipelineProofs Pipe.Convert Pipe.Compose Pipe.SchemaAgree Pipe.PositionsProofs Pipe.FieldPositions Pipe.ComposeProofs Pipe.CondsProofs Pipe.TypingProofs Pipe.CostCompose Pipe.CostComposeProofs.
 Import ListNotations.
 
 (** ** the composed model, from bytes *)
@@ -228,6 +228,22 @@ Theorem C03_pipeline_response_partial : forall pi VS F ES bs opname raw W,
   is_response (pipeline_order pi VS F ES bs opname raw W) = true.
 Proof. exact pipeline_response_if_sels_ok. Qed.
 
+(** ** the cost rule inside the composition.
+    [parse_validate_cost pi VS F ES bs opname raw r max] (Pipe/CostCompose.v) is
+    graphql.ParseAndValidate(bs, schema, features, ValidateCost(opname, raw, max, &actual,
+    FieldCost{Resolver: r})): the front half above, then C14's [validate_cost_request] (validate_cost.go
+    with C05's variable and argument coercion) on the document as TypeInfo annotates it
+    (C04's [pti_doc]); outcome: syntax errors / validation errors (of the standard rules or of the cost
+    rule) / accepted with [*actual].  For every byte string, operation name, raw variable values,
+    default cost, limit, map order and schema with closed input and argument types, no stage of it
+    panics or runs out of fuel (C03_front_never_panics, C05's no-panic theorems,
+    C14_request_never_out_of_fuel, and the stack invariant of the walk: Pipe/CostNoPanic.v — every
+    [multipliers[len-1]] / [multipliers[:len-1]] of validate_cost.go is in range) *)
+Theorem C03_validate_with_cost_never_crashes : forall pi VS F ES bs opname raw r max,
+  Vld.ProofsCommon.order_ok pi -> cost_schema_accepted ES = true ->
+  parse_validate_cost pi VS F ES bs opname raw r max <> CCrashed.
+Proof. exact parse_validate_cost_never_crashes. Qed.
+
 (** ** the glue of graphql.go over observed stage verdicts (round 1; still what covers Subscribe,
     the cost rule, argument coercion and everything else outside the composed model) *)
 Theorem C03_execute_total_partial : forall p v e,
@@ -265,6 +281,7 @@ Print Assumptions C03_validated_root_type_exists.
 Print Assumptions C03_parsed_field_positions_distinct.
 Print Assumptions C03_validate_establishes_doc_ok_partial.
 Print Assumptions C03_pipeline_response_partial.
+Print Assumptions C03_validate_with_cost_never_crashes.
 Print Assumptions C03_execute_total_partial.
 Print Assumptions C03_execute_data_or_errors_partial.
 Print Assumptions C03_subscribe_total_partial.
